@@ -5,7 +5,6 @@ CONSTANTS
   NS = 2
   Part = "cases"
   MaxIdx = 2
-  Expand <- MCExpand
 INVARIANT LawCfgWellFormed
 INVARIANT LawWF
 INVARIANT LawStuck
